@@ -86,12 +86,11 @@ Fixpoint cleanup (r : roster) : roster * list N :=
   end.
 
 (* ---- a transition command for environment [e] addressed to [targets]: the targets that
-   acknowledge go to [dst]; the one listed in [refuse] answers with an error and keeps its state.
+   acknowledge go to [dst]; those listed in [refuse] answer with an error and keep their state.
    Only tasks that [e] owns can be in its workflow's task list, hence the owner test. *)
-Definition command (e : N) (targets : list N) (refuse : option N) (dst : N) (r : roster) : roster :=
+Definition command (e : N) (targets : list N) (refuse : list N) (dst : N) (r : roster) : roster :=
   map (fun t =>
-         if owner_is e t && memN (t_id t) targets &&
-            negb (match refuse with Some x => N.eqb x (t_id t) | None => false end)
+         if owner_is e t && memN (t_id t) targets && negb (memN (t_id t) refuse)
          then set_state dst t else t) r.
 
 (* ---- a terminal status update (TASK_FAILED ...) for one task: status INACTIVE; state ERROR if it
